@@ -106,6 +106,28 @@ def main(tier, replay, t0):
             if c.gen[on["id"]].get("result") != "ok" or c.gen[off["id"]].get("result") != "ok":
                 continue
             base = {"case_id": c.id, "wgsl": c.wgsl, "repr": mv, "options_on": on["opt"], "options_off": off["opt"]}
+            # presence: every emitted struct reachable from a module-scope variable carries one
+            # size check and one offset check per field (read from the item inventory, so it is
+            # independent of whether the layouts happen to agree)
+            asserts = c.gen[on["id"]].get("inv", {}).get("asserts", [])
+            emitted = {s["name"] for s in c.gen[on["id"]].get("inv", {}).get("structs", [])}
+            for s in host:
+                if s not in emitted or W.has_runtime_array(spec.structs[s]):
+                    continue
+                mine = [a for a in asserts if ("< %s >" % s) in a or ("(%s ," % s) in a]
+                has_size = any("size_of" in a and ("< %s >" % s) in a for a in mine)
+                missing = [m["name"] for m in spec.structs[s].data_members()
+                           if not any("offset_of" in a and ("(%s , %s)" % (s, m["name"])) in a
+                                      for a in mine)]
+                if not has_size or missing:
+                    kinds = sorted({("atomic" if m["ty"][0] == "at" or "atomic" in W.wgsl(m["ty"])
+                                     else m["ty"][0]) for m in spec.structs[s].members})
+                    viol.append(Violation("checks-missing", "%s:%s" % (
+                        mv, "size" if not has_size else "offset"),
+                        "host-shareable struct %s (member kinds %s) derives the bytemuck traits "
+                        "but %s" % (s, kinds, "has no size check" if not has_size else
+                                    "has no offset check for %s" % missing),
+                        dict(base, struct=spec.structs[s].wgsl(), asserts=mine[:6])))
             if not camp.module_ok(c.id, off["id"]):
                 quad["other_compile_errors"] += 1
                 continue
